@@ -9,7 +9,8 @@ guarded scatter, `tile/.T/ravel` act on symbolic n x n blocks, `a[b:e] = v` is a
 `x.at[mask].set(v)` the jax functional update.  Every condition under which numpy/jax would raise (length agreement of a
 masked/sliced/scattered assignment, index bounds) is a goal (`numpy_operations_defined`) and is then assumed.
 Node-set membership of every essential BC is a vector of free Booleans, so `isBc` is a fully symbolic mask (empty, full,
-overlapping and repeated node sets included); field values are free reals.  The run has a single path (the code never
+overlapping and repeated node sets included; O1/O2 additionally take node sets as index arrays of symbolic length with
+arbitrary — repeated, unordered — entries); field values are free reals.  The run has a single path (the code never
 branches on a mask entry); z3 decides every goal for ALL masks.
 Replay: the same harness builds real node sets from the model's Booleans and runs the real `FunctionSpace.DofManager`
 (real numpy, real jax) — the goals are re-evaluated on its arrays.
